@@ -68,10 +68,11 @@ SPEC = {
     'no Variable class is registered under two collection names (guard of registry_bijection; register_variable_name does not enforce it: theorem register_alias_breaks_bijection)',
     'ToLinen type buckets: the class hierarchy enters as MRO lists with the hypothesis that a proper base class has a strictly shorter MRO (HierOk; true of Python MROs)',
     'ToLinen init returns the freshly constructed state, not the state after the first call (as coded)',
+    'tolinen_refines_nnx: the abstract NNX call keeps the set of Variables and their types (NModOk.shape; new structure needs a mutable nnx collection and is outside the theorem), reads its state by look-up (NModOk.ext); nnx.merge/split themselves are an opaque graph-definition token (C03 territory)',
+    'tonnx_refines_linen: the abstract Linen apply returns the same updates dict for variables dicts with the same leaves (ModOk.ext)',
+    'random keys are symbolic terms (base key, Linen make_rng at a scope path, fold_in); that distinct terms are distinct keys is A-RNG',
   ],
-  'model_partial': [
-    'tolinen_refines_nnx_partial: ToLinen is covered by encode/decode characterisations (apply output = call on the decoded state by construction of the model); a history-level simulation like tonnx_refines_linen is not proved for ToLinen; graphdef handling (collection `nnx`) and nnx.merge are not modelled (the type buckets of nnx.split are: tolinen_exposes_by_exact_type)',
-  ],
+  'model_partial': [],
 }
 
 RESERVED = ('module', 'rngs', '_object__state')
@@ -961,6 +962,25 @@ def gen_history(rng):
   return [(rng.choice(MUT_CHOICES), [rng.randrange(-3, 4) for _ in range(6)]) for _ in range(rng.randrange(1, 5))]
 
 
+class Spy:
+  """Stands in for the Linen module inside ToNNX and records the `rngs` dict of every init/apply."""
+
+  def __init__(self, module, log):
+    self._m, self._log = module, log
+
+  def init_with_output(self, rngs, *a, **kw):
+    self._log.append(dict(rngs))
+    return self._m.init_with_output(rngs, *a, **kw)
+
+  def apply(self, variables, *a, rngs=None, **kw):
+    self._log.append(dict(rngs or {}))
+    return self._m.apply(variables, *a, rngs=rngs, **kw)
+
+
+def key_str(k):
+  return valstr(k)
+
+
 def run_tonnx_case(ctx, spec, hist, placement, seeds, reqs, metas):
   """Runs one ToNNX history on the implementation with its reference; queues model requests."""
   case = {'kind': 'tonnx', 'spec': spec, 'hist': [[m, xs] for m, xs in hist], 'placement': placement, 'seeds': seeds}
@@ -1001,8 +1021,9 @@ def run_tonnx_case(ctx, spec, hist, placement, seeds, reqs, metas):
     y0_ref, V = r[1]
     V = unfreeze(V)
     # ---- wrapper
+    keylog = []
     if placement == 'alone':
-      w = bridge.ToNNX(module, rngs=mk_rngs())
+      w = bridge.ToNNX(Spy(module, keylog), rngs=mk_rngs())
       r = call(lambda: bridge.lazy_init(w, x0))
       get = lambda: w  # noqa: E731
       post = lambda y: y  # noqa: E731
@@ -1076,6 +1097,13 @@ def run_tonnx_case(ctx, spec, hist, placement, seeds, reqs, metas):
       else:
         reqs.append(('n2l', [reg_before, attrs_before]))
         metas.append((c2, 'held', impl_vars_canon(V)))
+    if placement == 'alone' and keylog:
+      # keys as symbolic terms: the model says which (stream, count) every init/apply was handed
+      streams = [['default', 0]] if default_only else [['params', 0], ['dropout', 0]]
+      seed_of = {'default': seeds[0], 'params': seeds[0], 'dropout': seeds[1]}
+      got = [sorted((n, key_str(k)) for n, k in d.items()) for d in keylog]
+      reqs.append(('draw', [streams, len(keylog), True]))
+      metas.append((case, 'keys', (got, seed_of)))
 
 
 _BASE_REG = None
@@ -1163,6 +1191,9 @@ def run_bridge_parent_case(ctx, spec, hist, seeds):
 # ------------------------------------------------------------------------------------------------
 
 
+KEYLOG = []  # keys drawn by NGen 'drop' layers, in order (everything runs eagerly)
+
+
 class NGen(nnx.Module):
   """Interpreter of an NNX module spec: ('linear', name, features, sharding) | ('count', name) |
   ('stat', name) | ('drop',) | ('sub', name, subspec)."""
@@ -1218,7 +1249,9 @@ class NGen(nnx.Module):
         s.value = s.value + jnp.sum(x) % 5 + 1
         x = x + s.value
       elif kind == 'drop':
-        x = x + jax.random.randint(self.rngs.dropout(), x.shape, 0, 10)
+        k = self.rngs.dropout()
+        KEYLOG.append(key_str(k))
+        x = x + jax.random.randint(k, x.shape, 0, 10)
       elif kind == 'sub':
         x = getattr(self, layer[1])(x)
     return x
@@ -1235,17 +1268,17 @@ def gen_nspec(rng, depth):
   layers = []
   for _ in range(rng.randrange(1, 4)):
     k = rng.random()
-    if k < 0.35:
+    if k < 0.30:
       layers.append(('linear', fresh('w'), rng.choice([2, 3]), rng.choice([None, None, ('a', 'b'), (None, 'm'), ('linen-part', ('p', None))])))
-    elif k < 0.48:
+    elif k < 0.40:
       layers.append(('count', fresh('n')))
-    elif k < 0.56:
+    elif k < 0.48:
       layers.append(('stat', fresh('s')))
-    elif k < 0.63:
+    elif k < 0.55:
       layers.append(('substat', fresh('t')))
-    elif k < 0.68:
+    elif k < 0.60:
       layers.append(('subsubstat', fresh('v')))
-    elif k < 0.73:
+    elif k < 0.72:
       layers.append(('drop',))
     elif k < 0.8:
       layers.append(('uparam', fresh('u')))
@@ -1360,12 +1393,20 @@ def run_tolinen_case(ctx, spec, hist, placement, seeds, reqs, metas):
       sub = {c: t for c, t in sub.items() if t is not None and c not in ('RngKey', 'RngCount')}
       reqs.append(('decode_vars', [reg_json(), forest_json({c: t for c, t in sub.items() if c != 'nnx'}, lbox_json)]))
       metas.append((c2, 'decode', _state_canon(ref)))
+      k0 = len(KEYLOG)
       wr = call(lambda: lm.apply(caller_vars, x, rngs={'dropout': keys['dropout']}, **kw))
+      drawn = KEYLOG[k0:]
       if snapshot_vars(caller_vars) != snap:
         ctx.violation('partitioned-box-mutated-by-to_nnx_var', f'ToLinen.apply changed the caller\'s variables (call {step})', c2)
         return
       # reference call on the NNX object, reseeded with the key Linen hands out at that scope
       probe_key = _linen_key(prefix, keys['dropout'])
+      # keys as symbolic terms (theorem tolinen_reseed_fresh): the j-th key drawn during this apply is
+      # fold_in(make_rng key of this apply's rngs at the wrapper's scope, j), whatever happened before
+      if wr[0] == 'ok' and drawn != [key_str(jax.random.fold_in(probe_key, j)) for j in range(len(drawn))]:
+        ctx.violation('tolinen-rng-keys-differ', f'call {step}: the keys the NNX module drew are not fold_in(linen key of this apply, j) for j = 0..{len(drawn) - 1} (stale or reused keys)', c2)
+        return
+      ctx.count('tolinen_keys_drawn_per_call', min(len(drawn), 3))
       nnx.reseed(ref, dropout=probe_key)
       before = nnx_user_state(ref)
       rr = call(lambda: ref(x))
@@ -1502,8 +1543,21 @@ def oracle_linen_exposes(variables, prefix, ref):
 def compare_queued(ctx, drv, reqs, metas):
   outs = drv.run(reqs)
   for (case, what, want), m in zip(metas, outs):
-    m = unwrap(m)
     ctx.count('model_wrapper_checks', what)
+    if what == 'keys':
+      # model: per init/apply the list of (name handed to Linen, stream, count); evaluate the symbolic
+      # key stream[count] = fold_in(key(seed of the stream), count) with real JAX and compare identities
+      seen, seed_of = want
+      model = []
+      if m[0] == 'ok':
+        for draw in m[1]:
+          model.append(sorted((n, key_str(jax.random.fold_in(jax.random.key(seed_of[st]), c))) for n, st, c in draw))
+      if m[0] != 'ok' or model != seen:
+        ctx.disagreements_checked += 1
+        bad = next((i for i, (a, b) in enumerate(zip(model, seen)) if a != b), None)
+        ctx.violation('tonnx-rng-keys-differ', f'the rngs handed to the wrapped module at init/apply no. {bad} are not the keys stream[count] the model predicts (a key reused or skipped): names {[n for n, _ in seen[bad]] if bad is not None else seen}', case)
+      continue
+    m = unwrap(m)
     if m[0] != 'ok':
       ctx.disagreements_checked += 1
       ctx.violation(f'{case["kind"]}-model-mismatch', f'{what}: model raises {m[1]} where the implementation succeeded', case, concrete=False)
